@@ -3,7 +3,7 @@
 P="$1"
 git -C /repo apply "$P" || { echo "patch does not apply"; exit 3; }
 for n in 01 02 03 04 05 06 07 08 09 10 11 12 13 14 15 16 17 18 19 20; do
-  out=$(/verif/check "C$n" 2>&1); code=$?
+  out=$(VERIF_NO_EVIDENCE=1 /verif/check "C$n" 2>&1); code=$?
   if [ $code -ne 0 ]; then echo "== C$n exit=$code"; echo "$out" | grep -E "^/repo|ANALYSIS-ERROR" | head -5; fi
 done
 git -C /repo checkout -- .
